@@ -3,11 +3,11 @@
    Datalog/InvarianceProofs.v / Datalog/InvarianceRename.v. Model and specification are
    the ones of C01: Datalog/{Syntax,Interp,Solve,SemiNaive,Strata}.v, Datalog/Lfp.v;
    the renamings are defined in Datalog/Invariance.v. *)
-From Coq Require Import List ZArith Permutation.
+From Coq Require Import List ZArith Permutation Lia.
 From MV Require Import Datalog.Syntax Datalog.SyntaxProofs Datalog.Interp Datalog.Solve Datalog.SemiNaive Datalog.Strata
      Datalog.Lfp Datalog.SolveProofs Datalog.SemiNaiveProofs Datalog.StrataProofs
      Datalog.Invariance Datalog.InvarianceProofs Datalog.InvarianceRename.
-From MV Require Run.C05.
+
 Import ListNotations.
 Open Scope Z_scope.
 
@@ -85,9 +85,57 @@ Theorem presentation_irrelevant :
 Proof. exact eval_program_presentation. Qed.
 Print Assumptions presentation_irrelevant.
 
+(* ---- consistent renaming of predicates. r injective (a package prefix "pk." in front of
+   every predicate the package defines is one): the least model of the renamed rules over
+   the renamed base is exactly the renamed least model - nothing more, nothing less *)
+Theorem lfp_rename_preds :
+  forall (r : Z -> Z), (forall a b, r a = r b -> a = b) ->
+  forall (R : list clause) (B : factset) (g : fact),
+    lfp (map (rp_clause r) R) (fun g => exists f, g = rp_fact r f /\ B f) g <->
+    exists f, g = rp_fact r f /\ lfp R B f.
+Proof. intros r Hr R B g. exact (lfp_rp r Hr R B g). Qed.
+Print Assumptions lfp_rename_preds.
+
+Theorem slfp_rename_preds :
+  forall (r : Z -> Z), (forall a b, r a = r b -> a = b) ->
+  forall (P : list clause) (layers : list (list Z)) (B : factset) (g : fact),
+    slfp (map (rp_clause r) P) (map (map r) layers) (fun g => exists f, g = rp_fact r f /\ B f) g <->
+    exists f, g = rp_fact r f /\ slfp P layers B f.
+Proof. intros r Hr P layers B g. exact (slfp_rp r Hr P layers B g). Qed.
+Print Assumptions slfp_rename_preds.
+
+(* the engine model on a program and on its renamed copy (hence: inside a package) *)
+Theorem package_prefix_irrelevant :
+  forall (r : Z -> Z), (forall a b, r a = r b -> a = b) ->
+  forall (fuel fuel' : nat) (P : list clause) (L : list (list Z)) (store init Res Res' : list fact),
+    valid_stratification P L -> valid_stratification (map (rp_clause r) P) (map (map r) L) ->
+    eval_program fuel P L store init = Ok Res ->
+    eval_program fuel' (map (rp_clause r) P) (map (map r) L) (map (rp_fact r) store) (map (rp_fact r) init) = Ok Res' ->
+    forall g, In g Res' <-> exists f, g = rp_fact r f /\ In f Res.
+Proof. exact eval_program_rp. Qed.
+Print Assumptions package_prefix_irrelevant.
+
+(* ---- consistent renaming of the variables of each clause (each clause by its own
+   injective renaming v: chead, every premise, every let-statement) *)
+Theorem lfp_rename_vars :
+  forall (R R' : list clause) (B : factset),
+    Forall2 (fun c c' => exists v : Z -> Z, (forall a b, v a = v b -> a = b) /\ c' = rn_clause v c) R R' ->
+    forall f, lfp R B f <-> lfp R' B f.
+Proof. exact lfp_alpha. Qed.
+Print Assumptions lfp_rename_vars.
+
+Theorem variable_names_irrelevant :
+  forall (fuel fuel' : nat) (P P' : list clause) (L : list (list Z)) (store init Res Res' : list fact),
+    Forall2 (fun c c' => exists v : Z -> Z, (forall a b, v a = v b -> a = b) /\ c' = rn_clause v c) P P' ->
+    valid_stratification P L -> valid_stratification P' L ->
+    eval_program fuel P L store init = Ok Res -> eval_program fuel' P' L store init = Ok Res' ->
+    forall f, In f Res <-> In f Res'.
+Proof. exact eval_program_alpha. Qed.
+Print Assumptions variable_names_irrelevant.
+
 (* ---- the observer the check uses to compare two outputs of the implementation *)
 Theorem same_set_spec :
-  forall a b : list fact, Run.C05.same_set a b = true <-> (forall f, In f a <-> In f b).
+  forall a b : list fact, same_set a b = true <-> (forall f, In f a <-> In f b).
 Proof. exact same_set_correct. Qed.
 Print Assumptions same_set_spec.
 
@@ -118,4 +166,18 @@ Proof.
     + intros c [<-|[<-|[]]].
       * exists 0%nat. vm_compute. repeat split; intros q Hq; repeat (destruct Hq as [<-|Hq]; [auto with arith|]); try destruct Hq.
       * exists 2%nat. vm_compute. repeat split; intros q Hq; repeat (destruct Hq as [<-|Hq]; [auto with arith|]); try destruct Hq.
+Qed.
+
+(* non-vacuity of the renaming theorems: r = (+100) and v = (+5) are injective, and the
+   renamed program evaluates to the renamed result *)
+Example renaming_satisfiable :
+  (forall a b : Z, a + 100 = b + 100 -> a = b) /\
+  Forall2 (fun c c' => exists v : Z -> Z, (forall a b, v a = v b -> a = b) /\ c' = rn_clause v c)
+          n_prog (map (rn_clause (fun x => x + 5)) n_prog) /\
+  eval_program 10 (map (rp_clause (fun k => k + 100)) (map (rn_clause (fun x => x + 5)) n_prog)) [[112]; [113]]
+               [(110, [CNum 1])] [(111, [CNum 1]); (111, [CNum 2])]
+  = Ok [ (110, [CNum 1]); (111, [CNum 1]); (111, [CNum 2]); (112, [CNum 1]); (113, [CNum 2]) ].
+Proof.
+  split; [intros a b H; lia|]. split; [|vm_compute; reflexivity].
+  repeat constructor; exists (fun x => x + 5); (split; [intros a b H; lia | reflexivity]).
 Qed.
